@@ -85,6 +85,11 @@ def run(cfg, rec, c07):
                 ctx.assume(vals["ax"].e != 1)
             if cfg["axis"] == "inverted":
                 ctx.assume(vals["f0"].e > 0)
+            # the cut itself (tau exactly 5 sigma) is outside the claim: a measure-zero set on which '<' and '<=' differ by 1e-6 of the peak
+            for gi in range(2):
+                for a in range(2):
+                    for g in range(ng):
+                        ctx.assume(t[a].e - (vals[f"mu{g}"].e - (vals[f"sh{gi}"].e if cfg["shifted"] else 0)) != 5 * vals[f"sig{g}"].e)
             labels, matrix = mc.calculate_matrix(dm, nu, t)
         return labels, matrix, vals, t, nu
 
